@@ -22,7 +22,8 @@ ASSUMPTIONS = ["residue-graph edges are taken from the generated input graph, no
 CASE_TIMEOUT = 120
 WALL = {"quick": 900, "thorough": 7200}
 REQUIRED = {"residue_edges_checked": 2000, "edges_realised": 300, "edges_missing": 300, "warnings_seen": 300,
-            "gen_coords_refusals": 20, "gen_coords_accepts": 3, "atom_removal_cases": 3}
+            "gen_coords_refusals": 20, "gen_coords_accepts": 3, "atom_removal_cases": 3,
+            "asked_before_and_after_links": 100}
 MSG = re.compile(r"Missing a link between residue (\d+) (\S+) and residue (\d+) (\S+)\.")
 ADDS = {"n": 0}
 
@@ -136,6 +137,32 @@ def run_case(cid, rng, workdir):
                 violation(res, "both-bond-and-warning" if pair in joined else "neither-bond-nor-warning",
                           "[captured molecule] residues %s: atom-level edge present=%s, warning present=%s" %
                           (sorted(pair), pair in joined, pair in gset), w)
+    # ---- history clause: the search is a pure function of the current molecule (asked before and after links) ------
+    if rng.random() < 0.15 and not ref["removed"]:
+        from polyply.src.load_library import load_ff_library
+        from polyply.src.meta_molecule import MetaMolecule
+        from polyply.src.map_to_molecule import MapToMolecule
+        from polyply.src.apply_links import ApplyLinks
+        from polyply.src.graph_utils import find_missing_edges
+        try:
+            ffield = load_ff_library("POLY", None, [Path(workdir) / p for p in case["inpath"]])
+            mm = MetaMolecule.from_sequence_file(ffield, Path(workdir) / "case.json", "POLY")
+            mm = MapToMolecule(ffield).run_molecule(mm)
+            before_links = {frozenset(((d["idxA"], d["resA"]), (d["idxB"], d["resB"]))) for d in find_missing_edges(mm, mm.molecule)}
+            mm = ApplyLinks().run_molecule(mm)
+            after_links = {frozenset(((d["idxA"], d["resA"]), (d["idxB"], d["resB"]))) for d in find_missing_edges(mm, mm.molecule)}
+            bump(res, "asked_before_and_after_links")
+            if after_links != exp_missing:
+                violation(res, "missing-links-depend-on-earlier-queries", "asked once before and once after link application the "
+                          "second answer is %s, the unbonded residue pairs are %s" %
+                          (sorted(map(sorted, after_links))[:4], sorted(map(sorted, exp_missing))[:4]), w or PC.witness(case))
+            if not (exp_missing <= before_links):
+                violation(res, "missing-link-not-reported-before-links", "pairs unbonded after link application were not reported "
+                          "before it: %s" % sorted(map(sorted, exp_missing - before_links))[:4], w or PC.witness(case))
+        except Exception as err:      # noqa
+            if type(err).__name__ == "CaseTimeout":
+                raise
+            violation(res, "direct-pipeline-raises:%s" % type(err).__name__, str(err)[:200], w or PC.witness(case))
     # ---- gen_coords gate ------------------------------------------------------------------------------------
     adj = {a["idx"]: set() for a in obs["atoms"]}
     for sec in ("bonds", "constraints"):
